@@ -16,6 +16,7 @@ from exabgp.protocol.resource import Resource
 
 class Protocol(Resource):
     NAME = 'protocol'
+    MAX = 0xFF  # one octet in the IP header and in a FlowSpec component
 
     ICMP = 0x01
     IGMP = 0x02
